@@ -136,7 +136,22 @@ def run(ctx):
             for ch in reversed(m.group(1)):
                 want = SList([Sym("car" if ch == "a" else "cdr"), want])
         got = body[0] if len(body) == 1 else None
-        ok = want is not None and repr(want) == repr(got)
+
+        def normal(t, depth=6):
+            """expand (cXYr e) through the file's own single-expression definitions of shorter compositions, down to car / cdr"""
+            if isinstance(t, list) and len(t) == 2 and isinstance(t[0], Sym) and depth > 0:
+                inner = normal(t[1], depth)
+                h = t[0].name
+                mm = re.fullmatch(r"c([ad]{2,3})r", h)
+                if mm and h in lib.defs and h != n:
+                    out = inner
+                    for ch in reversed(mm.group(1)):
+                        out = SList([Sym("car" if ch == "a" else "cdr"), out])
+                    # only if that shorter composition is itself what its name spells (checked in its own iteration)
+                    return out
+                return SList([t[0], inner])
+            return t
+        ok = want is not None and (repr(want) == repr(got) or repr(want) == repr(normal(got)))
         ctx.inst("C11-cxr", n, {"body": repr(got), "spelled": repr(want)})
         if not ok:
             ctx.report("C11-cxr", n, "%s is defined as %r, its name spells %r" % (n, got, want), GR)
@@ -148,65 +163,158 @@ def run(ctx):
 
     # ------------------------------------------------------------------ C11-native
     ctx.rule("C11-native", "native car / cdr / cons / pair?: component selection and error edges")
-    gp = {n: i for i, n in fb.variants("parser::pair::GenericPair")}
-    for name, field in (("car", 0), ("cdr", 1)):
+    # decision tables of the native list primitives (machine.py): applied to a pair (A . B), to the empty list and to a non-list
+    from . import machine, printtables, absint
+    mk = printtables.Mk(fb)
+
+    def find_named(v, name, d=8):
+        if isinstance(v, absint.Enum):
+            if getattr(v, "name", None) == name:
+                return True
+            return d > 0 and any(find_named(x, name, d - 1) for x in v.fields)
+        return isinstance(v, list) and d > 0 and any(find_named(x, name, d - 1) for x in v)
+
+    def has(v, x, d=8):
+        if v is x:
+            return True
+        if isinstance(v, absint.Enum):
+            return d > 0 and any(has(y, x, d - 1) for y in v.fields)
+        return isinstance(v, list) and d > 0 and any(has(y, x, d - 1) for y in v)
+    d_nat = 0
+    A, B = mk.leaf("A"), mk.leaf("B")
+    pair, empty, num = mk.lst([A], B), mk.lst([]), mk.number("Integer", 5)
+    for name, sel in (("car", A), ("cdr", B)):
         r = regs.get(name)
-        f = fb.by_path(r["target"]) if r else None
-        if f is None or r["fixed"] != 1 or r["variadic"]:
+        f = fb.by_path(r["target"]) if r and r.get("target") else None
+        if f is None:
+            ctx.undecided("C11-native", name + "/registration", "%s is not registered as a native function" % name, None)
+            continue
+        if r["fixed"] != 1 or r["variadic"]:
             ctx.report("C11-native", name + "/registration", "%s is not registered as a unary builtin" % name, None)
-            continue
-        el = [t for _, t in f.calls() if callee_matches(t, "Value::expect_list")]
-        sw = [x for x in mir.discriminant_switches(f, "GenericPair")]
-        if len(el) != 1 or not sw:
-            ctx.report("C11-native", name + "/shape", "%s: shape not recognised" % name, where_of(f))
-            continue
-        sb, place, adt, targets, other = sw[0]
-        some_t = targets.get(gp["Some"], other)
-        empty_t = targets.get(gp["Empty"], other)
-        sreg, ereg = mir.dominated_region(f, some_t), mir.dominated_region(f, empty_t)
-        ok_field = None
-        for b, i, s, a, v in mir.aggregates(f, sreg):
-            if v == "Ok" and s["place"]["local"] == 0:
-                root, path = mir.trace_access(f, s["rv"]["ops"][0])
-                ok_field = [x for x in path if isinstance(x, int)][-1:] or None
-        err = any(v == "TypeMisMatch" for _, _, _, _, v in mir.aggregates(f, ereg)) and not any(
-            v == "Ok" for _, _, s, _, v in mir.aggregates(f, ereg) if s["place"]["local"] == 0)
-        ctx.inst("C11-native", name, {"returns_field": ok_field, "empty_list_is_error": err})
-        if ok_field != [field]:
-            ctx.report("C11-native", name + "/component", "%s returns component %s of the pair, expected %d" % (name, ok_field, field), where_of(f))
-        if not err:
-            ctx.report("C11-native", name + "/empty", "(%s '()) is not a TypeMisMatch error" % name, where_of(f))
+        rows = []
+        for label, arg in (("pair", pair), ("empty-list", empty), ("non-list", num)):
+            try:
+                rows.append((label, machine.Machine(fb, max_visits=6).run(f, [[arg]])))
+            except (absint.Stuck, absint.Loop) as e:
+                ctx.undecided("C11-native", "%s/%s" % (name, label), "cannot follow %s (%s)" % (name, e), where_of(f))
+        for label, res in rows:
+            d_nat += 1
+            if label == "pair":
+                good = getattr(res, "name", None) == "Ok" and res.fields and res.fields[0] is sel
+                msg = "(%s '(A . B)) yields %r, expected %s" % (name, res, "A" if name == "car" else "B")
+            else:
+                good = getattr(res, "name", None) == "Err" and find_named(res, "TypeMisMatch")
+                msg = "(%s %s) yields %r, expected Err(TypeMisMatch)" % (name, "'()" if label == "empty-list" else "5", res)
+            ctx.inst("C11-native", "%s/%s" % (name, label), {"ok": bool(good)})
+            ctx.oblige(bool(good))
+            if not good:
+                ctx.report("C11-native", "%s/%s" % (name, "component" if label == "pair" else ("empty" if label == "empty-list" else "non-list")), msg, where_of(f))
     r = regs.get("cons")
-    f = fb.by_path(r["target"]) if r else None
+    f = fb.by_path(r["target"]) if r and r.get("target") else None
     if f is not None:
-        p = Prov(f)
-        order = {b: i for i, b in enumerate(f.rpo())}
-        agg = [(b, s) for b, i, s, a, v in mir.aggregates(f, None, "GenericPair") if v == "Some"]
-        nexts = sorted([(order[b], t["dest"]["local"]) for b, t in f.calls() if callee_matches(t, "Iterator::next", "Iterator>::next")])
-        okc = False
-        if len(agg) == 1 and len(nexts) == 2:
-            a0 = p.taint_reach(mir.op_local(agg[0][1]["rv"]["ops"][0]))
-            a1 = p.taint_reach(mir.op_local(agg[0][1]["rv"]["ops"][1]))
-            okc = nexts[0][1] in a0 and nexts[1][1] not in a0 and nexts[1][1] in a1 and nexts[0][1] not in a1
-        ctx.inst("C11-native", "cons", {"pair_is_(first,second)": okc})
-        if not okc or r["fixed"] != 2:
-            ctx.report("C11-native", "cons/order", "cons does not build (first argument . second argument)", where_of(f))
+        try:
+            res = machine.Machine(fb, max_visits=6).run(f, [[A, B]])
+            d_nat += 1
+            somes = [x for x in ([res] if False else []) ]
+            good = getattr(res, "name", None) == "Ok" and find_named(res, "Some")
+
+            def some_fields(v, d=8):
+                if isinstance(v, absint.Enum):
+                    if getattr(v, "name", None) == "Some" and len(v.fields) == 2:
+                        return v.fields
+                    for x in v.fields:
+                        r_ = some_fields(x, d - 1) if d > 0 else None
+                        if r_:
+                            return r_
+                return None
+            sf = some_fields(res)
+            good = bool(sf) and sf[0] is A and sf[1] is B and r["fixed"] == 2
+            ctx.inst("C11-native", "cons", {"pair_is_(first,second)": bool(good)})
+            ctx.oblige(bool(good))
+            if not good:
+                ctx.report("C11-native", "cons/order", "(cons A B) yields %r, expected the pair (A . B)" % (res,), where_of(f))
+        except (absint.Stuck, absint.Loop) as e:
+            ctx.undecided("C11-native", "cons", "cannot follow cons (%s)" % e, where_of(f))
     r = regs.get("pair?")
-    f = fb.by_path(r["target"]) if r else None
+    f = fb.by_path(r["target"]) if r and r.get("target") else None
     if f is not None:
-        # true only under Value::Pair and not GenericPair::Empty
-        vi = fb.variant_index("values::Value", "Pair")
-        trues = [b for b, i, s, a, v in mir.aggregates(f, None, "values::Value") if v == "Boolean" and mir.const_val(s["rv"]["ops"][0]) is True]
-        dom = f.dominators()
-        guard_pair = any(targets.get(vi) is not None and all(targets[vi] in dom[b] for b in trues) for sb, pl, a, targets, o in mir.discriminant_switches(f, "values::Value"))
-        guard_nonempty = False
-        for sb, pl, a, targets, o in mir.discriminant_switches(f, "GenericPair"):
-            et = targets.get(gp["Empty"])
-            if et is not None and not any(b in f.reachable(et) and et in dom[b] for b in trues):
-                guard_nonempty = True
-        ctx.inst("C11-native", "pair?", {"requires_Pair": guard_pair, "false_on_empty": guard_nonempty})
-        if not (trues and guard_pair and guard_nonempty):
-            ctx.report("C11-native", "pair?/table", "pair? is not `a Pair value that is not the empty list`", where_of(f))
+        for label, arg, want in (("pair", pair, True), ("empty-list", empty, False), ("non-list", num, False), ("proper-list", mk.lst([A, B]), True)):
+            try:
+                res = machine.Machine(fb, max_visits=6).run(f, [[arg]])
+            except (absint.Stuck, absint.Loop) as e:
+                ctx.undecided("C11-native", "pair?/" + label, "cannot follow pair? (%s)" % e, where_of(f))
+                continue
+            d_nat += 1
+            got = None
+            if getattr(res, "name", None) == "Ok" and res.fields and isinstance(res.fields[0], absint.Enum) and getattr(res.fields[0], "name", None) == "Boolean":
+                got = res.fields[0].fields[0]
+            ctx.inst("C11-native", "pair?/" + label, {"result": got})
+            ctx.oblige(got is want)
+            if got is not want:
+                ctx.report("C11-native", "pair?/table", "(pair? <%s>) yields %r, expected %s" % (label, res, "#t" if want else "#f"), where_of(f))
+
+
+    def _old_native():
+        gp = {n: i for i, n in fb.variants("parser::pair::GenericPair")}
+        for name, field in (("car", 0), ("cdr", 1)):
+            r = regs.get(name)
+            f = fb.by_path(r["target"]) if r else None
+            if f is None or r["fixed"] != 1 or r["variadic"]:
+                ctx.report("C11-native", name + "/registration", "%s is not registered as a unary builtin" % name, None)
+                continue
+            el = [t for _, t in f.calls() if callee_matches(t, "Value::expect_list")]
+            sw = [x for x in mir.discriminant_switches(f, "GenericPair")]
+            if len(el) != 1 or not sw:
+                ctx.report("C11-native", name + "/shape", "%s: shape not recognised" % name, where_of(f))
+                continue
+            sb, place, adt, targets, other = sw[0]
+            some_t = targets.get(gp["Some"], other)
+            empty_t = targets.get(gp["Empty"], other)
+            sreg, ereg = mir.dominated_region(f, some_t), mir.dominated_region(f, empty_t)
+            ok_field = None
+            for b, i, s, a, v in mir.aggregates(f, sreg):
+                if v == "Ok" and s["place"]["local"] == 0:
+                    root, path = mir.trace_access(f, s["rv"]["ops"][0])
+                    ok_field = [x for x in path if isinstance(x, int)][-1:] or None
+            err = any(v == "TypeMisMatch" for _, _, _, _, v in mir.aggregates(f, ereg)) and not any(
+                v == "Ok" for _, _, s, _, v in mir.aggregates(f, ereg) if s["place"]["local"] == 0)
+            ctx.inst("C11-native", name, {"returns_field": ok_field, "empty_list_is_error": err})
+            if ok_field != [field]:
+                ctx.report("C11-native", name + "/component", "%s returns component %s of the pair, expected %d" % (name, ok_field, field), where_of(f))
+            if not err:
+                ctx.report("C11-native", name + "/empty", "(%s '()) is not a TypeMisMatch error" % name, where_of(f))
+        r = regs.get("cons")
+        f = fb.by_path(r["target"]) if r else None
+        if f is not None:
+            p = Prov(f)
+            order = {b: i for i, b in enumerate(f.rpo())}
+            agg = [(b, s) for b, i, s, a, v in mir.aggregates(f, None, "GenericPair") if v == "Some"]
+            nexts = sorted([(order[b], t["dest"]["local"]) for b, t in f.calls() if callee_matches(t, "Iterator::next", "Iterator>::next")])
+            okc = False
+            if len(agg) == 1 and len(nexts) == 2:
+                a0 = p.taint_reach(mir.op_local(agg[0][1]["rv"]["ops"][0]))
+                a1 = p.taint_reach(mir.op_local(agg[0][1]["rv"]["ops"][1]))
+                okc = nexts[0][1] in a0 and nexts[1][1] not in a0 and nexts[1][1] in a1 and nexts[0][1] not in a1
+            ctx.inst("C11-native", "cons", {"pair_is_(first,second)": okc})
+            if not okc or r["fixed"] != 2:
+                ctx.report("C11-native", "cons/order", "cons does not build (first argument . second argument)", where_of(f))
+        r = regs.get("pair?")
+        f = fb.by_path(r["target"]) if r else None
+        if f is not None:
+            # true only under Value::Pair and not GenericPair::Empty
+            vi = fb.variant_index("values::Value", "Pair")
+            trues = [b for b, i, s, a, v in mir.aggregates(f, None, "values::Value") if v == "Boolean" and mir.const_val(s["rv"]["ops"][0]) is True]
+            dom = f.dominators()
+            guard_pair = any(targets.get(vi) is not None and all(targets[vi] in dom[b] for b in trues) for sb, pl, a, targets, o in mir.discriminant_switches(f, "values::Value"))
+            guard_nonempty = False
+            for sb, pl, a, targets, o in mir.discriminant_switches(f, "GenericPair"):
+                et = targets.get(gp["Empty"])
+                if et is not None and not any(b in f.reachable(et) and et in dom[b] for b in trues):
+                    guard_nonempty = True
+            ctx.inst("C11-native", "pair?", {"requires_Pair": guard_pair, "false_on_empty": guard_nonempty})
+            if not (trues and guard_pair and guard_nonempty):
+                ctx.report("C11-native", "pair?/table", "pair? is not `a Pair value that is not the empty list`", where_of(f))
+    ctx.guarded("C11-native", d_nat >= 11, _old_native)
     for nm in ("eqv?", "eq?", "apply"):
         if nm not in regs:
             ctx.report("C11-native", nm + "/registration", "%s is not registered" % nm, None)
@@ -242,7 +350,7 @@ def structural(ctx, mf, lib, info, GR):
         fm, body = lib.defs[name]
         free, calls, cbody, bound = info[name]
         if fm is None or len(cbody) != 1:
-            ctx.report("C11-structural", name + "/shape", "%s: shape not recognised" % name, GR)
+            ctx.undecided("C11-structural", name + "/shape", "%s: body is not a single expression (shape not recognised)" % name, GR)
             continue
         params = fm[0]
         dparam = params[di] if di < len(params) else None
@@ -251,10 +359,25 @@ def structural(ctx, mf, lib, info, GR):
         recs = [s for s in library.subterms(term) if isinstance(s, list) and s and isinstance(s[0], Sym) and s[0].name == name]
         n += 1
         if not recs:
-            ctx.report("C11-structural", name + "/no-recursion", "%s does not recurse" % name, GR)
+            helpers = sorted({s[0].name for s in library.subterms(term) if isinstance(s, list) and s and isinstance(s[0], Sym)
+                              and s[0].name in lib.defs and s[0].name != name and s[0].name not in SPEC})
+            if helpers:
+                ctx.undecided("C11-structural", name + "/no-recursion", "%s does not recurse itself but delegates to %s (a helper this rule has "
+                              "no recursion scheme for)" % (name, helpers), GR)
+            else:
+                ctx.report("C11-structural", name + "/no-recursion", "%s does not recurse" % name, GR)
             continue
+        # let-bound aliases: ((lambda (v ...) body) e ...) binds v to e
+        alias = {}
+        for st in library.subterms(term):
+            if isinstance(st, list) and st and isinstance(st[0], list) and st[0] and st[0][0] == Sym("lambda") and isinstance(st[0][1], list):
+                for fv, op in zip(st[0][1], st[1:]):
+                    if isinstance(fv, Sym):
+                        alias[fv.name] = op
 
-        def cls(arg, p):
+        def cls(arg, p, depth=3):
+            if isinstance(arg, Sym) and arg.name != p and arg.name in alias and depth > 0:
+                return cls(alias[arg.name], p, depth - 1)
             if isinstance(arg, Sym) and arg.name == p:
                 return "same"
             if isinstance(arg, list) and len(arg) == 2 and isinstance(arg[0], Sym) and arg[1] == Sym(p) and arg[0].name in ("cdr", "car"):
@@ -293,7 +416,8 @@ def structural(ctx, mf, lib, info, GR):
                 continue
             if library.count_calls(leaf, name) > 0:
                 tests = [t for (_, _, t) in cond]
-                if not any(Sym(dparam) in list(library.subterms(t)) for t in tests):
+                names = {dparam} | {a for a, e in alias.items() if Sym(dparam) in list(library.subterms(e))}
+                if not any(any(Sym(nm) in list(library.subterms(t)) for nm in names) for t in tests):
                     guarded = False
         if not guarded:
             ctx.report("C11-structural", name + "/guard", "a recursive call of %s is not guarded by a test of `%s`" % (name, dparam), GR)
@@ -346,7 +470,21 @@ def structural(ctx, mf, lib, info, GR):
         want = "(car (list-tail %s %s))" % (p[0], p[1]) if len(p) == 2 else None
         ctx.inst("C11-structural", "list-ref", repr(b[0]) if b else None)
         if not b or repr(b[0]) != want:
-            ctx.report("C11-structural", "list-ref/definition", "list-ref is %s, expected %s" % (repr(b[0]) if b else None, want), GR)
+            # not the composition (car (list-tail x k)): accept a direct recursion that steps both the list and the count and returns
+            # the car at count zero; anything else is not recognised (no verdict)
+            t0 = b[0] if b else None
+            recs = [s_ for s_ in library.subterms(t0) if isinstance(s_, list) and s_ and s_[0] == Sym("list-ref")] if t0 is not None else []
+            steps_ok = bool(recs) and all(len(r_) == 3 and repr(r_[1]) == "(cdr %s)" % p[0] and repr(r_[2]) == "(- %s 1)" % p[1] for r_ in recs) and len(p) == 2
+            base_ok = any(leaf is not None and repr(leaf) == "(car %s)" % p[0] and any(Sym(p[1]) in list(library.subterms(tt)) for (_, _, tt) in cond)
+                          for cond, leaf in library.paths(t0)) if t0 is not None and len(p) == 2 else False
+            if steps_ok and base_ok:
+                ctx.inst("C11-structural", "list-ref/recursion", {"steps": "(cdr list) (- k 1)", "base": "(car list) under a test of k"})
+            elif recs and not steps_ok:
+                ctx.report("C11-structural", "list-ref/definition", "list-ref recurses with %s, expected the rest of the list and the count minus "
+                           "one" % [repr(r_) for r_ in recs], GR)
+            else:
+                ctx.undecided("C11-structural", "list-ref/definition", "list-ref is %s: neither (car (list-tail x k)) nor a recognised recursion" % (
+                    repr(t0),), GR)
     if "append" in info:
         t = info["append"][2][0]
         fm = lib.defs["append"][0]
